@@ -266,7 +266,7 @@ def contracts(repo):
 # ------------------------------------------------------------------------------------------------ bounded tier
 def enum_inputs(tier, rng):
     win = 7 if tier == 'quick' else 9
-    base_addrs = [0, 9996, 40001]
+    base_addrs = [0, 9996, 40001, 49996, 99996]        # windows inside a bank and across the 10000 / 50000 / 100000 block boundaries
     singles = [(a, c) for a in range(win) for c in range(1, 4) if a + c <= win + 1]
     maxn = 3 if tier == 'quick' else 4
     opts = [None, 0, 1, 2, 3]
@@ -417,7 +417,7 @@ def bounded(tier, seed):
     if not samples:
         samples.append(dict(ranges=[(0, 3), (1, 1)], reach=1, limit=None, merged=_run_merge([(0, 3), (1, 1)], 1, None)[1]))
     return dict(evaluations=ev, distinct_nontrivial=len(distinct), distinct_keys=distinct_keys(distinct),
-                rule='merge: lists of 0..%d ranges (address offset 0..6, count 1..3) placed at bank positions 0 / 9996 / 40001, '
+                rule='merge: lists of 0..%d ranges (address offset 0..6, count 1..3) placed at bank positions 0 / 9996 / 40001 / 49996 / 99996, '
                      'reach and limit in {None,0,1,2,3}; all lists up to 2 ranges x all reach x limit {None,1,2}, sampled beyond; '
                      'oracle = set semantics of the property; distinct = distinct (ranges, reach, limit) with >= 2 ranges; '
                      'shatter: address x count x limit lattice vs exact tiling; poller: %d histories of the real poller_modbus thread '
